@@ -2,6 +2,7 @@ package rules
 
 import (
 	"fmt"
+	"go/token"
 	"go/types"
 	"strings"
 
@@ -338,6 +339,13 @@ func ruleClean4(c *Ctx) {
 					}
 					if inSelect {
 						c.Ok(key, c.Pos(k), "SELECT … FOR UPDATE, decided by the query itself (in Select or a helper only Select calls)")
+						continue
+					}
+					// the worker a thin Select delegates to (it may have a second entry point, e.g. the definition of
+					// an inline table): still the query's own decision when the receiver of IsForUpdate is the
+					// SelectQuery this function was given to execute
+					if thinDelegate(c.P.Func("lib/query.Select")) == fn && isOwnQueryParam(call) {
+						c.Ok(key, c.Pos(k), "SELECT … FOR UPDATE, decided by the query itself (IsForUpdate of the SelectQuery parameter, in the function Select delegates to)")
 						continue
 					}
 				}
@@ -798,3 +806,63 @@ func ruleClean5(c *Ctx) {
 }
 
 var _ = fmt.Sprintf
+
+// isOwnQueryParam: the receiver of the call is a parameter of the calling function — directly, or read from the
+// cell the parameter was spilled into (a struct parameter whose fields are selected), provided nothing else is
+// ever written to that cell.
+func isOwnQueryParam(call *ssa.Call) bool {
+	args := call.Common().Args
+	if len(args) == 0 {
+		return false
+	}
+	os := core.Origins(args[0], false)
+	if len(os) == 0 {
+		return false
+	}
+	for _, o := range os {
+		if _, ok := o.(*ssa.Parameter); ok {
+			continue
+		}
+		u, ok := o.(*ssa.UnOp)
+		if !ok || u.Op != token.MUL {
+			return false
+		}
+		cell, ok := u.X.(*ssa.Alloc)
+		if !ok || !cellHoldsOnlyParam(cell) {
+			return false
+		}
+	}
+	return true
+}
+
+func cellHoldsOnlyParam(cell *ssa.Alloc) bool {
+	stored := false
+	var readOnly func(v ssa.Value) bool
+	readOnly = func(v ssa.Value) bool {
+		refs := v.Referrers()
+		if refs == nil {
+			return false
+		}
+		for _, r := range *refs {
+			switch x := r.(type) {
+			case *ssa.UnOp, *ssa.DebugRef:
+			case *ssa.FieldAddr:
+				if !readOnly(x) {
+					return false
+				}
+			case *ssa.Store:
+				if x.Addr != v || v != ssa.Value(cell) {
+					return false
+				}
+				if _, ok := x.Val.(*ssa.Parameter); !ok {
+					return false
+				}
+				stored = true
+			default:
+				return false
+			}
+		}
+		return true
+	}
+	return readOnly(cell) && stored
+}
